@@ -9,7 +9,7 @@ from impl import cminx
 NAMES = ['a', 'b', 'c', 'mod', 'x.y', 'd-e', 'aa', 'ab', 'ac', 'e1', 'e2', 'e3', 'Z', 'útf', 'tc.cmake.in', 'P.cmake', 'v1.2.x', '.hid']
 EXTS = ['.cmake', '.cmake', '.cmake', '.cmake', '.CMake', '.CMAKE', '.txt', '', '.cmake.in', '.cmake~']
 DIRS = ['sub', 'deep', 'aa', 'ab', 'ac', 'build', 'x.d', 'cmake', 'T-1', 'tmpl.cmake', '.dot']
-PATTERNS = ['aa/', 'ab/', 'ac/', 'build', 'sub/', '*.txt', 'a.cmake', 'b.cmake', 'c.cmake', '**/deep/*.cmake', 'mod.*', 'x.d/',
+PATTERNS = ['a*/', '*.cmake/', 'mod*/', 'e?/', 'aa/', 'ab/', 'ac/', 'build', 'sub/', '*.txt', 'a.cmake', 'b.cmake', 'c.cmake', '**/deep/*.cmake', 'mod.*', 'x.d/',
             'aa.cmake', 'ab.cmake', 'ac.cmake', 'e1.cmake', 'e2.cmake', 'e3.cmake', '*.cmake', 'sub/*.cmake', '/nomatch', 'deep/',
             '{INP}/sub/a.cmake', '{INP}/aa/', '**/ab/', 'a*', '!a.cmake', 'cmake/']
 
@@ -19,11 +19,12 @@ def file_content(g, name):
     k = g.random()
     if k < 0.55: return 'function(f_%s a)\nendfunction()\n' % ident
     if k < 0.7: return '#[[[\n# Doc of %s ✓\n#]]\nfunction(f_%s a b)\nendfunction()\nset(V_%s 1)\n' % (name, ident, ident)
-    if k < 0.76: return '#[[[ @module named.%s\n# module text\n#]]\n#[[[\n# fdoc\n#]]\nmacro(m_%s)\nendmacro()\n' % (ident, ident)
+    if k < 0.76:      # any blanks between the opener and the tag
+        return '#[[[%s@module named.%s\n# module text\n#]]\n#[[[\n# fdoc\n#]]\nmacro(m_%s)\nendmacro()\n' % (g.choice([' ', ' ', '  ', '\t', '', '   ', ' \t']), ident, ident)
     if k < 0.8:      # the same, the module doccomment indented by more columns than its opener is long
         ind = g.choice(['      ', '        ', '\t\t\t\t\t\t\t'])
         return '%s#[[[ @module named.%s\n%s# module text\n%s#]]\n#[[[\n# fdoc\n#]]\nmacro(m_%s)\nendmacro()\n' % (ind, ident, ind, ind, ident)
-    if k < 0.87: return '#[[[ @module\n# unnamed module text\n#]]\noption(O_%s "help")\n' % ident
+    if k < 0.87: return '#[[[%s@module\n# unnamed module text\n#]]\noption(O_%s "help")\n' % (g.choice([' ', ' ', '  ', '\t', '']), ident)
     if k < 0.93: return ''
     return '# only a comment\n'
 
@@ -204,13 +205,16 @@ def run_real(sb_dir, case, variant='v0', cwd_mode=None, loc='+loc+', keep_inputs
                 for k, (inp, p) in enumerate(zip(inputs, abs_inputs)):
                     spelled = inp.get('spelled', 'abs')
                     if spelled == 'rel': arg = os.path.relpath(p, os.getcwd())
-                    elif spelled == 'dot' and inp['kind'] == 'dir':
+                    elif spelled == 'updir' and inp['kind'] == 'dir' and any('children' in c and not c.get('dirlink') for c in inp['children']):
+                        # the directory named from inside as <sub-directory>/..
+                        os.chdir(p); arg = os.path.join(next(c['name'] for c in inp['children'] if 'children' in c and not c.get('dirlink')), '..')
+                    elif spelled in ('dot', 'updir') and inp['kind'] == 'dir':
                         os.chdir(p); arg = '.'
                     else: arg = p
                     if inp['kind'] == 'dir':
                         with imposed_listing(p, inp['children']): cminx.document(arg, settings)
                     else: cminx.document(arg, settings)
-                    if spelled == 'dot': os.chdir(workdir)
+                    if spelled in ('dot', 'updir'): os.chdir(workdir)
             except SystemExit as e:
                 results['status'] = 'exit-1' if e.code in (-1, 255) else 'exit:%r' % (e.code,)
             except BaseException as e:
